@@ -25,6 +25,7 @@
 # only (fibex: Field Bus Exchange Format //
 # https://de.wikipedia.org/wiki/Field_Bus_Exchange_Format)
 
+import copy
 import os
 import typing
 from builtins import *
@@ -427,7 +428,8 @@ def dump(db, f, **options):
     # Make sure that we can even write to FIBEX
     #
 
-    # make frame names unique by adding suffix, if needed
+    # make frame names unique by adding suffix, if needed (on a copy: the caller's matrix is not renamed)
+    db = copy.deepcopy(db)
     frame_names = dict()
     for frame in db.frames:
         if frame.name in frame_names:
